@@ -260,6 +260,19 @@ Definition set_slice (v : bvec) (start stop : nat) (val : chunk) : option bvec :
 Definition set_word (v : bvec) (off : nat) (val : chunk) : option bvec :=
   set_slice v off (off + 32) val.
 
+(* ByteVec.__setitem__ with a slice key:
+     start = key.start or 0 ; stop = key.stop or self.length
+   Python's `or` takes the default for None AND for 0 *)
+Definition py_or (x : option nat) (d : nat) : nat :=
+  match x with Some 0 => d | Some n => n | None => d end.
+
+Definition setitem_slice (v : bvec) (start stop : option nat) (val : chunk) : option bvec :=
+  set_slice v (py_or start 0) (py_or stop (blen v)) val.
+
+(* a ConcreteChunk (unwrap gives python bytes) *)
+Definition leaf_conc (c : chunk) : bool :=
+  match c with Leaf sym _ _ _ => negb sym | Nest _ _ _ => true end.
+
 (* ---- ByteVec._well_formed, extended to nested ByteVecs and to the Chunk constructor
    assertion (start + length <= data_byte_length): keys contiguous from 0, no empty
    chunk, lengths add up ---- *)
@@ -345,6 +358,7 @@ Arguments defrag_go {B}.
 Arguments defrag {B}.
 Arguments cunwrap {B}.
 Arguments unwrap {B}.
+Arguments leaf_conc {B}.
 Arguments wfc {B}.
 Arguments wfl {B}.
 Arguments wf {B}.
